@@ -533,7 +533,12 @@ def tasks():
                                        # a correctly keyed link must get through its prologue under any fragmentation, or no
                                        # generation ever converges: the framer's handshake matching belongs here as well
                                        "_Framer._get_expected", "_Framer.parse_prologue", "_Framer.parse_relay_ok",
-                                       "_Framer.add_and_parse")):
+                                       "_Framer.add_and_parse",
+                                       # the role a side has agreed on is what its links are built with: Leader = Noise initiator
+                                       # saying the Leader prologue, Follower = responder; each side accepts only the other role's
+                                       # prologue (a link to oneself / a reflected stream never becomes a candidate)
+                                       "DilatedConnectionProtocol.connectionMade", "Connector.build_protocol",
+                                       "lemma:prologues_cross_match")):
             out.append(t)
     # noticing a lost connection (the precondition of any re-convergence) rests on the Leader's timer discipline:
     # C16's timer tasks are run here too, so that a change which wedges the timer fails this check as well
@@ -575,4 +580,8 @@ ASSUMPTIONS = [
     "dataReceived and reaches nobody (Twisted drops a connection whose dataReceived raises: trusted); the Leader's KCM is sent only "
     "in Connector.select_and_stop_remaining (proved)",
     "Noise authenticity (C12 assumption) is what makes 'KCM decrypted on this link' mean 'the Leader confirmed this link'",
+    "role -> link binding is verified by the C12 tasks run here too: Connector.build_protocol (Leader = Noise initiator with the "
+    "Leader prologue outbound, Follower = responder, PSK = dilation key), DilatedConnectionProtocol.connectionMade (record machine "
+    "gets set_role_leader iff LEADER) and lemma:prologues_cross_match (each role accepts exactly the other role's prologue and "
+    "rejects its own); that Connector._role is Manager._my_role is the constructor call in Manager._start_connecting (C17)",
 ]
